@@ -3,9 +3,27 @@
    Layers: F = documented format (Format.v), S = abstract spec (Spec/SpecStep), I = model of the Rust (World.step'). *)
 From Coq Require Import List NArith Bool Arith Sorted.
 From Coq Require Import Strings.Byte.
-Require Import BS.Bytes BS.Common BS.Api BS.Layout BS.Format BS.FormatFacts BS.Spec BS.SpecStep.
-Require Import BS.FS BS.FSFacts BS.Meta BS.MetaFacts BS.Header BS.Reader BS.ReaderFacts BS.Index BS.Data BS.DataFacts BS.Seek BS.Series BS.SeriesFacts.
+Require Import BS.Bytes BS.Common BS.Api BS.Layout BS.Format BS.FormatFacts BS.Spec BS.SpecStep BS.Sections.
+Require Import BS.FS BS.FSFacts BS.Meta BS.MetaFacts BS.Header BS.Reader BS.ReaderFacts BS.Index BS.Data BS.DataFacts BS.Seek BS.SeekFacts BS.Series BS.SeriesFacts BS.ReadAllFacts.
 Import ListNotations.
 
-(* theorems for this property are added as the development grows; until then the property is
-   decided by the judge (Layer S/F, extracted) on the implementation and by the correspondence check *)
+(* (I refines S) FULL STATEMENT for series without caches: for every pair of bounds and every n >= 1,
+   read_n returns the uniform bucket means (Spec.resample, bucket size b >= 1) of exactly the lines a full
+   read of that range returns; at most 2n samples; sums are unbounded in the model (u128 in the Rust after
+   the fix), so no timestamp magnitude overflows *)
+Theorem C10_resampling_read : forall fs sr p hdr ihdr l, RepH fs sr p hdr ihdr l -> forall n lo hi, s_down sr = [] -> (1 <= n)%N ->
+  (exists b, b >= 1 /\ read_n sr n lo hi fs = (fs, Ok (resample p b (select lo hi l)))
+             /\ (len (resample p b (select lo hi l)) <= 2 * n)%N)
+  \/ (select lo hi l = [] /\ read_n sr n lo hi fs = (fs, Err ERange)).
+Proof. exact read_n_ok. Qed.
+Print Assumptions C10_resampling_read.
+
+(* the sampler computes Spec.resample of whatever lines it is fed *)
+Theorem C10_sampler : forall p b, b > 0 -> forall l, Forall (fun x : N * list byte => (fst x < U64)%N) l ->
+  exists s', feed _ (proc_sample p (N.of_nat b)) {| sm_sum := 0; sm_n := 0; sm_state := rs_zero p; sm_out := [] |} l = PCont s'
+             /\ rev (sm_out s') = resample p b l.
+Proof. exact BS.SampleFacts.feed_sample_resample. Qed.
+Print Assumptions C10_sampler.
+Theorem C10_at_most_2n : forall k m n : N, (k <= m)%N -> (1 <= n)%N -> (k / N.max 1 (m / n) <= 2 * n)%N.
+Proof. exact BS.SampleFacts.at_most_2n. Qed.
+Print Assumptions C10_at_most_2n.
